@@ -27,12 +27,16 @@ Do(st) == HStep(st) /\ Rec(st)
 Next ==
   \/ /\ hist = <<>>
      /\ \E ks \in KeySeqs, m \in Mods, init \in {"zero", "three", "perkey"}, kind \in Kinds :
+          (kind = "set" => init = "zero") /\
           Do(<<"new", ks, IF init = "zero" THEN <<"scalar", 0>> ELSE IF init = "three" THEN <<"scalar", 3>>
                           ELSE <<"array", [i \in DOMAIN ks |-> 10 + i]>>,
                IF m = 0 THEN 2 * Len(ks) - 1 ELSE m, kind, "int">>)
   \/ /\ hist # <<>> /\ Len(hist) < Depth
      /\ \E t \in DOMAIN tabs :
-        \/ Alphabet \in {"table", "both"} /\
+        \/ Alphabet \in {"table", "both"} /\ hist[1][5] = "set" /\        \* HashSet: membership only
+           (\/ \E q \in Queries : Do(<<"contains", t, q>>)
+            \/ \E k \in U : Do(<<"containsone", t, k>>))
+        \/ Alphabet \in {"table", "both"} /\ hist[1][5] # "set" /\
            (\/ \E q \in Queries : Do(<<"getvec", t, q>>)
             \/ \E k \in U : Do(<<"get", t, k>>)
             \/ \E q \in Queries : Do(<<"contains", t, q>>)
